@@ -127,3 +127,17 @@ def maxmin_mul_signed(o, k):
                  (n[0] == "num" and isinstance(n[1], (int, float)) and n[1] < 0) or
                  (n[0] == "leaf" and (len(n) < 5 or n[4] in (None, "real"))) for n in _nodes(p))
     return signed
+
+
+def adjoint_identity_subs(o, k):
+    """a leaf wrapped in the identity renaming x(a=a) in an expression built under reflect: the tape files the leaf's
+    adjoint under the substituted term (a full-range Slice onto the same name is handled correctly and NOT matched)"""
+    p = _prog_of(o)
+    if p is None or "opt=reflect" not in o.get("label", ""):
+        return False
+    for n in _nodes(p):
+        if n[0] == "subs" and n[1][0] == "leaf":
+            for key, val in n[2]:
+                if val[0] == "var" and val[1] == key:
+                    return True
+    return False
